@@ -10,8 +10,11 @@ EXTENDS MC_C05_Universe
 VARIABLES n, pat, zeros, D, givenI, done, failed
 vars == <<n, pat, zeros, D, givenI, done, failed>>
 
-Init == /\ n \in Ns
-        /\ pat \in SUBSET Cells(n)
+\* thorough tier: 4 x 4 systems with at most 4 stored entries (C05_N4 = "1")
+NsUsed == IF IOEnv.C05_N4 = "1" THEN {4} ELSE Ns
+PatsOf(k) == IF k = 4 THEN {p \in SUBSET Cells(4) : Cardinality(p) <= 4} ELSE SUBSET Cells(k)
+Init == /\ n \in NsUsed
+        /\ pat \in PatsOf(n)
         /\ zeros \in {{}, {<<1, 1>>}, {<<n, 1>>}}
         /\ D \in OrderedSubsets(n)
         /\ givenI \in BOOLEAN
